@@ -84,7 +84,14 @@ pub fn parse<'a>(r: &'a RunResult) -> Parsed<'a> {
         p.by_thread[t].push(s);
     }
 
-    for e in &r.events {
+    // Everything before the end of a prelude benchmark is not the loop
+    // under test.
+    let skip_to = r
+        .events
+        .iter()
+        .rposition(|e| matches!(e.kind, Ev::User(UserEv::Mark { tag: crate::looprun::PRELUDE_END, .. })))
+        .map_or(0, |p| p + 1);
+    for e in &r.events[skip_to..] {
         let t = e.tid as usize;
         if t >= nthreads {
             continue;
